@@ -42,6 +42,7 @@ type spec struct {
 	OutsideClaim []string
 	Encoded      []string // prefixes of functions whose execution is reported
 	MapOrder     []string // functions whose map ranges explore every order
+	Preempt      [2]int   // preemption bound of the scheduler (quick, thorough)
 }
 
 type knownFinding struct {
@@ -200,6 +201,10 @@ func check(id, tier string, seed int64, workers int, verbose bool, only string, 
 	cfg := &symgo.Config{Stubs: sp.Stubs, FreezeProperty: id, MapOrderFuncs: map[string]bool{}}
 	for _, f := range sp.MapOrder {
 		cfg.MapOrderFuncs[f] = true
+	}
+	cfg.MaxPreempt = sp.Preempt[0]
+	if tier == "thorough" {
+		cfg.MaxPreempt = sp.Preempt[1]
 	}
 	workDir := filepath.Join(verifDir, ".work", id+"-"+tier)
 	os.RemoveAll(workDir)
